@@ -583,6 +583,10 @@ def run(chk):
         if key.split(":")[0] == "C03.R6" and "_readsegment" in key:
             chk.undecided.append(("via-" + key, msg))
     r5.ok("the token-terminated reader behind raw_command satisfies C03.R1/R4 and the segmentation rows of C03.R6 (%d obligations re-checked here)" % n_sub)
+    # ------------------------------------------------------------------ R7 raw_command honours the end token it is given
+    from . import rules_C01
+
+    rules_C01.framing_rows(chk, rule_id="C19.R7")
     # ------------------------------------------------------------------ R6 histories of re-discoveries
     r6 = chk.rule("C19.R6", "histories: the AWS client interpreted on a concrete cluster under every sequence of operations, re-discoveries with another advertised node list, failures of a node and elapsed time (depth 7): after every re-discovery rotation and client table are exactly the advertised nodes, dropped client objects are closed once and live ones never; every operation contacts advertised nodes only and nothing but the node's own error escapes")
     from . import failhist
